@@ -169,3 +169,31 @@ func TestC06DebugL2(t *testing.T) {
 		}
 	}
 }
+
+// TestC06DebugL2Case: C06_CASE=<replay file> [C06_TEXT=override chain]: run every layout of a saved L2 case and print the answers.
+func TestC06DebugL2Case(t *testing.T) {
+	path := os.Getenv("C06_CASE")
+	if path == "" || os.Getenv("C06_L2") == "" {
+		t.Skip("manual probe")
+	}
+	b, err := os.ReadFile(path)
+	if err != nil {
+		t.Fatal(err)
+	}
+	var env struct {
+		Case l2Case `json:"case"`
+	}
+	if err := json.Unmarshal(b, &env); err != nil {
+		t.Fatal(err)
+	}
+	cs := &env.Case
+	text := chainText(cs.Chain)
+	if o := os.Getenv("C06_TEXT"); o != "" {
+		text = "* | " + o
+	}
+	fmt.Println(text)
+	for li := range cs.Layouts {
+		out, err := runLayout(cs, li, text)
+		fmt.Printf("--- layout %d %s\nerr=%v engineErr=%q\n%s", li, layoutText(cs.Layouts[li], cs.Reverse[li]), err, out.err, rowsText(out.rows))
+	}
+}
